@@ -627,9 +627,12 @@ class CacheWorld:
         self._mirror = dict(src={m: list(v) for m, v in self.src.items()}, pyc=dict(pyc))
         return dict(src={m: list(v) for m, v in self.src.items()}, pyc=pyc)
 
-    def edit(self, m):
+    def edit(self, m, back=False):
         ver, mt = self.src[m]
         ver, mt = ver + 1, mt + 2
+        if back:
+            # a roll-back: new content of the same size, but an mtime OLDER than every earlier one
+            mt = C18_BASE_MTIME - 2 * ver - 1
         if ver > 999:
             raise common.HarnessError("more than 999 edits of one module")
         p = os.path.join(self.root, m + ".py")
@@ -649,7 +652,7 @@ class CacheWorld:
         mod, _, rest = name.partition(".")
         m = re.fullmatch(re.escape(self.ctag) + r"(?:\.opt-(.+))?\.pyc", rest)
         if not m:
-            return (mod, "?" + rest, False, "?", "?")
+            return (mod, "?" + rest, False, "?", "?", "older")
         opt = m.group(1)
         if opt is None:
             ntag = "p"
@@ -663,10 +666,12 @@ class CacheWorld:
             sz = int.from_bytes(data[12:16], "little")
             code = marshal.loads(data[16:])
         except Exception:  # noqa: BLE001
-            return (mod, ntag, False, "corrupt", "?")
+            return (mod, ntag, False, "corrupt", "?", "older")
         ver, cur_mt = self.src.get(mod, (None, None))
         src_size = len(c18_source(mod, ver)) if ver is not None else -1
         fresh = flags == 0 and cur_mt is not None and mt == (cur_mt & 0xFFFFFFFF) and sz == (src_size & 0xFFFFFFFF)
+        # a stale file may be OLDER or NEWER than the source (a source rolled back to an earlier mtime)
+        age = "=" if fresh else ("newer" if (cur_mt is not None and mt > (cur_mt & 0xFFFFFFFF)) else "older")
         consts = [c for c in code.co_consts if isinstance(c, str)]
         if "jaxtyped" in code.co_names:
             hs = [self.hash_names[c] for c in consts if c in self.hash_names]
@@ -675,7 +680,7 @@ class CacheWorld:
             ctag = "p"
         vs = [c for c in consts if re.fullmatch(r"v\d{3}", c)]
         cver = "cur" if (vs and ver is not None and vs[0] == f"v{ver:03d}") else "old"
-        return (mod, ntag, fresh, ctag, cver)
+        return (mod, ntag, fresh, ctag, cver, age)
 
     def listing(self, snap=None):
         snap = snap or self.snapshot()
@@ -687,8 +692,8 @@ class CacheWorld:
         tag and source version of the code inside.  A stale file's content is
         never executed (CPython validates the header first), so it is merged."""
         out = []
-        for mod, ntag, fresh, ctag, cver in self.listing(snap):
-            out.append(f"{mod}/{ntag}/" + (f"fresh:{ctag}:{cver}" if fresh else "stale"))
+        for mod, ntag, fresh, ctag, cver, age in self.listing(snap):
+            out.append(f"{mod}/{ntag}/" + (f"fresh:{ctag}:{cver}" if fresh else ("stale" if age == "older" else "stale-newer-than-source")))
         return " ".join(out) or "(empty)"
 
     # -- one run, in this process
@@ -706,18 +711,18 @@ class CacheWorld:
         importlib.invalidate_caches()
         spyck.clear()
 
-    def run(self, hooked, ck, order, cheap_probe=False, write=True):
+    def run(self, hooked, ck, order, cheap_probe=False, write=True, disabled=False):
         self.purge()
         if write:
             self._mirror = None  # the import system is about to write files
-        res = c18_do_run(hooked, ck, order, self.modules, cheap_probe, write)
+        res = c18_do_run(hooked, ck, order, self.modules, cheap_probe, write, disabled=disabled)
         if write and res["late_imports"]:
             raise common.HarnessError(f"library modules were imported while bytecode writing was on: {res['late_imports'][:5]}")
         return res
 
-    def subprocess_run(self, hooked, ck, order):
+    def subprocess_run(self, hooked, ck, order, disabled=False):
         self._mirror = None  # another process is about to write files
-        return c18_subprocess_run(self.root, hooked, ck, order, self.modules)
+        return c18_subprocess_run(self.root, hooked, ck, order, self.modules, disabled=disabled)
 
     def warm_up(self):
         """Trigger every lazy import (typeguard, equinox via error formatting, ...)
@@ -731,7 +736,7 @@ class CacheWorld:
             raise common.HarnessError("warm-up wrote bytecode")
 
 
-def c18_do_run(hooked, ck, order, modules, cheap_probe=False, write=True):
+def c18_do_run(hooked, ck, order, modules, cheap_probe=False, write=True, disabled=False):
     """Install the hook (unless ck == 'nohook'), import in order, call mc.load(),
     uninstall; bytecode writing is ON exactly for that span (write=False is the
     warm-up that triggers every lazy import of the libraries beforehand).
@@ -745,6 +750,10 @@ def c18_do_run(hooked, ck, order, modules, cheap_probe=False, write=True):
         raise common.HarnessError("bytecode writing was already on before the run")
     before = set(sys.modules)
     sys.dont_write_bytecode = not write
+    if disabled:
+        # a run made with checking switched off (JAXTYPING_DISABLE): what it leaves in the cache
+        # must not change what LATER runs execute
+        jaxtyping.config.update("jaxtyping_disable", True)
     try:
         if ck != "nohook":
             # the hook also covers a module that does not compile; importing it fails (and the
@@ -768,6 +777,8 @@ def c18_do_run(hooked, ck, order, modules, cheap_probe=False, write=True):
         outcome = f"raised:{type(e).__name__}:{str(e)[:80]}"
     finally:
         sys.dont_write_bytecode = True
+        if disabled:
+            jaxtyping.config.update("jaxtyping_disable", False)
     late = sorted(k for k in set(sys.modules) - before if k not in C18_ALL)
     loaded = {}
     for m in modules:
@@ -780,13 +791,13 @@ def c18_do_run(hooked, ck, order, modules, cheap_probe=False, write=True):
     return dict(outcome=outcome, loaded=loaded, late_imports=late)
 
 
-def c18_subprocess_run(root, hooked, ck, order, modules, timeout=120):
+def c18_subprocess_run(root, hooked, ck, order, modules, timeout=120, disabled=False):
     """The same run as a REAL separate interpreter (fresh process, bytecode
     writing on for the forest imports; PYTHONDONTWRITEBYTECODE removed)."""
     env = dict(os.environ)
     env.pop("PYTHONDONTWRITEBYTECODE", None)
     env["VERIF_REPO"] = common.REPO
-    spec = json.dumps(dict(root=root, hooked=list(hooked), ck=ck, order=list(order), modules=list(modules)))
+    spec = json.dumps(dict(root=root, hooked=list(hooked), ck=ck, order=list(order), modules=list(modules), disabled=bool(disabled)))
     # -B only keeps THIS interpreter's own start-up imports (vf, jaxtyping, numpy)
     # from writing bytecode next to their sources; the run itself switches
     # writing on (sys.dont_write_bytecode = False) around the forest imports.
@@ -827,7 +838,7 @@ def _main(argv):
         from .fixtures import spyck  # noqa: F401
 
         sys.path.insert(0, spec["root"])
-        res = c18_do_run(spec["hooked"], spec["ck"], spec["order"], spec["modules"], cheap_probe=True)
+        res = c18_do_run(spec["hooked"], spec["ck"], spec["order"], spec["modules"], cheap_probe=True, disabled=spec.get("disabled", False))
         print("RESULT " + json.dumps(res))
         return 0
     print("usage: python -B -m vf.worlds c18-run <json>", file=sys.stderr)
